@@ -6,7 +6,8 @@
      code 2: the implementation disagrees with the abstract TTL-LRU specification evaluated directly on
              the history (sa_run_obs with the declarative direct-child rule / sd_run_obs), or breaks a
              statement checked on its own output (size <= capacity, negative results only while negative
-             caching is enabled, copy isolation flag, isChildOf = parent rule on absolute paths). *)
+             caching is enabled, copy isolation flag, isChildOf = parent rule on absolute paths; for the
+             concurrent stress stream: any round that ended with a broken statement). *)
 From Coq Require Import List NArith ZArith Bool.
 From Verif Require Import Model.Cache Corr.Common.
 Import ListNotations.
@@ -18,7 +19,8 @@ Definition dent := N.                (* a directory entry is identified by a num
 Inductive case :=
 | AttrCase (ttl mx : Z) (h : list (N * attr_op attrs)) (obs : list (attr_obs attrs)) (iso : bool)
 | DirCase (timeout mxe mxd : Z) (h : list (N * dir_op dent)) (obs : list (dir_obs dent)) (iso : bool)
-| ChildCase (p d : path) (r : bool).
+| ChildCase (p d : path) (r : bool)
+| RaceCase (rounds bad : N).        (* concurrent stress: number of rounds / of rounds that broke a statement *)
 
 (* short constructors for the driver's output *)
 Definition ao (r : option (get_result attrs)) (size mx negs : N) : attr_obs attrs :=
@@ -55,10 +57,6 @@ Fixpoint dir_direct (i : N) (obs : list (dir_obs dent)) : list (N * N) :=
   | [] => []
   end.
 
-Definition is_abs (p : path) : bool := match p with c :: _ => c =? slash | [] => false end.
-Definition root_quirk (p d : path) : bool :=
-  path_eqb d [slash] && match p with c :: name => negb (c =? slash) && no_slash_nonempty name | [] => false end.
-
 Definition check (c : case) : list (N * N) :=
   match c with
   | AttrCase ttl mx h obs iso =>
@@ -75,5 +73,6 @@ Definition check (c : case) : list (N * N) :=
     (if Bool.eqb r (if is_abs p then direct_child_b p d else direct_child_b p d || root_quirk p d)
      then [] else [(0, code_specfail)]) ++
     (if Bool.eqb r (is_child_of p d) then [] else [(0, code_mismatch)])
+  | RaceCase rounds bad => if bad =? 0 then [] else [(0, code_specfail)]
   end.
 Definition run (cs : list case) : result := run_cases check cs.
